@@ -140,6 +140,52 @@ EXPR_HOSTS = {
     "in-class-body": "class K:\n    x = <E>\n",
     "in-loop-in-func": "def f():\n    for i in range(1):\n        x = [<E>]\n",
     "dead-expr": "def f():\n    return 0\n    x = <E>\n",
+    # positions whose expression the converter drops or treats specially (annotations) and the remaining
+    # expression slots of the grammar
+    "return-annotation": "def f() -> <E>:\n    pass\n",
+    "return-annotation-nested-def": "def g():\n    def f() -> <E>:\n        pass\n    return f\n",
+    "return-annotation-method": "class K:\n    def m(self) -> <E>:\n        pass\n",
+    "param-annotation": "def f(a: <E>):\n    pass\n",
+    "posonly-annotation": "def f(a: <E>, /):\n    pass\n",
+    "kwonly-annotation": "def f(*, a: <E> = 1):\n    pass\n",
+    "vararg-annotation": "def f(*a: <E>):\n    pass\n",
+    "kwarg-annotation": "def f(**a: <E>):\n    pass\n",
+    "param-annotation-nested-def": "def g():\n    def f(a: <E>):\n        pass\n    return f\n",
+    "annassign-annotation": "x: <E> = 1\n",
+    "annassign-annotation-bare": "x: <E>\n",
+    "annassign-annotation-attr": "class O:\n    pass\no = O()\no.a: <E> = 1\n",
+    "annassign-annotation-in-func": "def f():\n    x: <E> = 1\n    return x\n",
+    "annassign-annotation-in-class": "class K:\n    x: <E> = 1\n",
+    "annassign-value": "x: int = <E>\n",
+    "class-decorator": "@<E>\nclass K:\n    pass\n",
+    "decorator-arg": "def d(a):\n    return lambda f: f\n@d(<E>)\ndef f():\n    pass\n",
+    "class-other-keyword": "class B:\n    def __init_subclass__(cls, **k):\n        pass\nclass K(B, tag=<E>):\n    pass\n",
+    "aug-target-index": "x = [0]\nx[<E>] += 1\n",
+    "aug-target-object": "(<E>).a += 1\n",
+    "for-target-index": "x = [0]\nfor x[<E>] in [1]:\n    pass\n",
+    "unpack-target-index": "x = [0]\nx[<E>], y = 1, 2\n",
+    "dict-key": "y = {<E>: 1}\n",
+    "set-elt": "y = {<E>}\n",
+    "tuple-elt": "y = (<E>, 1)\n",
+    "list-elt": "y = [<E>]\n",
+    "slice-upper": "x = [0]\ny = x[:<E>]\n",
+    "slice-step": "x = [0]\ny = x[::<E>]\n",
+    "attribute-base": "y = (<E>).real\n",
+    "call-func": "y = (<E>)()\n",
+    "list-star": "y = [*<E>]\n",
+    "dict-doublestar": "y = {**<E>}\n",
+    "call-doublestar": "print(**<E>)\n",
+    "unaryop": "y = -<E>\n",
+    "binop-left": "y = <E> + 1\n",
+    "binop-right": "y = 1 + <E>\n",
+    "compare-left": "y = <E> < 1\n",
+    "lambda-kwdefault": "y = lambda *, a=<E>: a\n",
+    "ifexp-orelse": "y = 1 if 0 else <E>\n",
+    "dictcomp-key": "y = {<E>: i for i in range(1)}\n",
+    "setcomp-elt": "y = {<E> for i in range(1)}\n",
+    "fstring-nested-field": "y = f'{f\"{ <E> }\"}'\n",
+    "while-else-expr": "while 0:\n    pass\nelse:\n    <E>\n",
+    "elif-test": "if 0:\n    pass\nelif <E>:\n    pass\n",
 }
 EXPR_FILLER = "0"
 EXPR_CONSTRUCTS = {
